@@ -9,8 +9,13 @@ pat="${1:-seeded/*}"
 ids=$(python3 -c "import json;print(' '.join(c['property_id'] for c in json.load(open('MANIFEST.json'))['checks']))")
 bin/vcheck __build__ >/dev/null 2>&1
 mkdir -p .work/matrix
+count=0
 for d in $pat; do
   [ -f "$d/patch.diff" ] || continue
+  [ -n "${SEED_FROM:-}" ] && [[ "$(basename "$d")" < "$SEED_FROM" ]] && continue
+  # every mutated tree leaves its own compiled packages and linked binaries in the Go build cache: drop what has not
+  # been used for three hours (the disk is finite)
+  count=$((count+1)); [ $((count % 10)) -eq 0 ] && find "${GOCACHE:-$HOME/.cache/go-build}" -type f -mmin +180 -delete 2>/dev/null
   n=$(basename "$d")
   if ! git -C "$REPO" apply "$(realpath "$d/patch.diff")" 2>/dev/null; then
     if ! git -C "$REPO" apply -3 "$(realpath "$d/patch.diff")" 2>/dev/null; then echo "$n: PATCH DOES NOT APPLY"; git -C "$REPO" reset -q --hard HEAD; continue; fi
